@@ -23,3 +23,27 @@ def init_variant(run, motifs):
 
 
 CONTRACTS = [init_variant(r, m) for r in (False, True) for m in (None, 0, 1, 2, 3)]
+
+
+def valid_variant(run, gc, motifs, only_last):
+    name = "dsw.biofilter.LocalBioFilter.valid#%s-%s-%s-%s" % ("run" if run else "norun", "gc" if gc else "nogc",
+                                                             "none" if motifs is None else str(motifs), "last" if only_last else "whole")
+    observed = "dna_sequence[-self.observed_length:]" if only_last else "dna_sequence"
+    loops = {1: dict(binds="observed_dna_sequence", invariant={"acgt-so-far": "is_dna(observed_dna_sequence, 0, _i)"})}
+    ghost = {}
+    if gc:
+        loops[4] = dict(binds="range(len(observed_dna_sequence) - self.observed_length + 1)", invariant={
+            "windows-so-far": "forall(lambda w: gc_window_ok(self, observed_dna_sequence, w), 0, _i, lambda w: here(w))"})
+        ghost["loop4_begin"] = "mark(index)"
+    return dict(
+        name=name, function="dsw.biofilter.LocalBioFilter.valid", variant_of="dsw.biofilter.LocalBioFilter.valid", n_loops=4,
+        self_class="LocalBioFilter", self_config={"run": run, "gc": gc, "motifs": motifs},
+        params={"dna_sequence": "str", "only_last": "true" if only_last else "false"},
+        requires={},
+        returns="bool",
+        ensures={"verdict": "result == filter_ok(self, " + observed + ")"},
+        raises={}, ghost=ghost, loops=loops,
+    )
+
+
+CONTRACTS = CONTRACTS + [valid_variant(r, g, m, o) for r in (False, True) for g in (False, True) for m in (None, 0, 1, 2) for o in (False, True)]
